@@ -3,6 +3,7 @@
 import itertools
 
 from . import gen_expr as ge
+from . import lex
 from . import gen_hostile as gh
 from .core import bits2f, f2bits
 from .numfmt import DEFAULT_SEP, SEP_CONFIGS
@@ -52,7 +53,7 @@ def render(tree, sep, spacing, rng, grouped=False, assign=None):
     return text, toks
 
 
-def shrink(drv, cops, tree, sep, spacing, assign, rng, max_runs=120):
+def shrink(drv, cops, tree, sep, spacing, assign, rng, max_runs=120, lang='en'):
     """Greedy structural shrinking; every candidate is re-run through the driver and judged
     by the same oracle. -> (tree, text, observed, want)"""
     runs = 0
@@ -66,7 +67,7 @@ def shrink(drv, cops, tree, sep, spacing, assign, rng, max_runs=120):
         if ge.date_like(toks, sep):
             return None
         runs += 1
-        r = drv.run(cops + [{'op': 'execute', 'lang': 'en', 'text': text}])[-1]
+        r = drv.run(cops + [{'op': 'execute', 'lang': lang, 'text': text}])[-1]
         if 'lines' not in r or len(r['lines']) != 1:
             return (text, ('abnormal', str(r)[:200]), want)
         obs = observe(r['lines'][0])
@@ -138,6 +139,9 @@ def small_trees():
                 yield ('bin', o1, a, ('paren', ('bin', o2, b, c)))
 
 
+LANGS = lex.languages()
+
+
 def needs_paren_left(o1, o2):
     return o1 in '+-' and o2 in '*/'
 
@@ -157,9 +161,19 @@ def run_shard(ctx):
         cops = gh.config_ops(cfg)
         ops = list(cops)
         meta = []
+        # digits, operators, parentheses and magnitude suffixes are not words: the line means the same under every configured language
+        lang = 'en' if rng.random() < 0.6 else rng.choice(LANGS)
+        res.count('lang:' + lang)
         for _ in range(60):
             tree = None
-            if exhaustive is not None and rng.random() < p_exh:
+            if rng.random() < 0.03:
+                # a quotient chain that is NOT a day/month/year date (month 13..40, or a day that does not exist) is plain arithmetic
+                a_, b_, c_ = rng.randint(1, 31), rng.randint(13, 40), rng.choice([1, 2, 3, 7, 20, 99, 2020, 2021])
+                tree = ('bin', '/', ('bin', '/', ('lit', str(a_), ''), ('lit', str(b_), '')), ('lit', str(c_), ''))
+                if rng.random() < 0.4:
+                    tree = ('bin', rng.choice('+-*'), rng.choice([('lit', '5', ''), ('paren', tree)]), rng.choice([('paren', tree), ('lit', '3', '')]))
+                res.count('quotient_chains_that_are_not_dates')
+            if tree is None and exhaustive is not None and rng.random() < p_exh:
                 tree = next(exhaustive, None)
                 if tree is None:
                     exhaustive = None
@@ -187,7 +201,7 @@ def run_shard(ctx):
                 if ge.date_like(toks, sep):
                     res.count('excluded_date_like')
                     continue
-                ops.append({'op': 'execute', 'lang': 'en', 'text': text})
+                ops.append({'op': 'execute', 'lang': lang, 'text': text})
                 meta.append((len(ops) - 1, tree, want, text, sp, assign, cls))
         rs = drv.run(ops)
         for (idx, tree, want, text, sp, assign, cls) in meta:
@@ -215,7 +229,7 @@ def run_shard(ctx):
             if shrunk < 25:
                 shrunk += 1
                 try:
-                    sh = shrink(drv, cops, tree, sep, sp, assign, rng)
+                    sh = shrink(drv, cops, tree, sep, sp, assign, rng, lang=lang)
                 except Exception:
                     sh = None
                 if sh:
@@ -225,7 +239,7 @@ def run_shard(ctx):
             else:
                 # unshrunk: classify by the generator's classes only
                 sig_text = 'unshrunk:' + '+'.join(sorted(cls))[:80]
-            res.violation('arith:' + sig_text,
+            res.violation('arith:' + sig_text + ('' if lang == 'en' else ':' + lang),
                           '%r should evaluate to %r, observed %s' % (w_text, want, (repr(w_obs[1]) if w_obs[0] == 'number' else w_obs)),
-                          {'config': cfg, 'lang': 'en', 'text': w_text, 'original_text': text, 'tree': repr(w_tree), 'expected': repr(want),
-                           'observed': w_obs, 'ops': cops + [{'op': 'execute', 'lang': 'en', 'text': w_text}]})
+                          {'config': cfg, 'lang': lang, 'text': w_text, 'original_text': text, 'tree': repr(w_tree), 'expected': repr(want),
+                           'observed': w_obs, 'ops': cops + [{'op': 'execute', 'lang': lang, 'text': w_text}]})
